@@ -93,6 +93,13 @@ func countAccounts(w http.ResponseWriter, r *http.Request) {
 		return
 	}
 
+	// the count is the count of what the listing with the same parameters lists
+	options.QueryBuilder, err = buildAccountsFilterQuery(r)
+	if err != nil {
+		sharedapi.BadRequest(w, ErrValidation, err)
+		return
+	}
+
 	count, err := l.CountAccounts(r.Context(), ledgerstore.NewGetAccountsQuery(*options))
 	if err != nil {
 		sharedapi.InternalServerError(w, r, err)
